@@ -334,6 +334,30 @@ func c08(r *hx.Run, onlyCrash bool) {
 		m := bytes.Repeat([]byte{0xff}, n)
 		valCase(r, base, &validate.Options{TdQuoteBodyOptions: validate.TdQuoteBodyOptions{MinimumTeeTcbSvn: m}}, onlyCrash, "mintee-len")
 	}
+	// exact MR_TD and the allowed-MR_TD set are two expectations: both count when both are given
+	for _, exact := range []string{"equal", "differs", "unset"} {
+		for _, set := range []string{"contains", "lacks", "lacks-but-has-the-exact-value-of-the-option", "unset"} {
+			o := &validate.Options{}
+			mrtd := base.TdQuoteBody.MrTd
+			other := append([]byte{}, mrtd...)
+			other[11] ^= 0x04
+			switch exact {
+			case "equal":
+				o.TdQuoteBodyOptions.MrTd = append([]byte{}, mrtd...)
+			case "differs":
+				o.TdQuoteBodyOptions.MrTd = other
+			}
+			switch set {
+			case "contains":
+				o.TdQuoteBodyOptions.AnyMrTd = [][]byte{hx.RandBytes(rng, 48), append([]byte{}, mrtd...)}
+			case "lacks":
+				o.TdQuoteBodyOptions.AnyMrTd = [][]byte{hx.RandBytes(rng, 48), hx.RandBytes(rng, 48)}
+			case "lacks-but-has-the-exact-value-of-the-option":
+				o.TdQuoteBodyOptions.AnyMrTd = [][]byte{hx.RandBytes(rng, 48), other}
+			}
+			valCase(r, base, o, onlyCrash, "mrtd-and-anymrtd")
+		}
+	}
 	// each byte option singly, then pairwise (3-wise sample in thorough)
 	type choice struct{ f, v int }
 	apply := func(cs []choice) {
